@@ -10,17 +10,19 @@ from harness.framework import Suite
 from harness.swctext import Expect
 
 PID = "C16"
-LEAN_MODS = ["SwcVerif.Props.C16", "SwcVerif.Props.C16Length"]
+LEAN_MODS = ["SwcVerif.Props.C16", "SwcVerif.Props.C16Length", "SwcVerif.Props.C16Pair"]
 THEOREMS = [
     "C16.cumdist_spec", "C16.linspace_spec", "C16.iso_step_le", "C16.isoPositions_adjust", "C16.isoPositions_zero", "C16.isoPositions_noadjust",
     "C16.interp_endpoints", "C16.interp_on_segment", "C16.convex_between", "C16.isoResample_columns", "C16.linearResample_columns",
     "C16.smooth_endpoints_count", "C16.assemble_keeps_interior",
     "Polyline.plen_samples_le", "C16.resample_length_le", "C16.linearResample_length_le", "C16.isoResample_length_le",
+    "C16.pairArgmin_spec", "C16.pair_step_inv", "C16.pair_exact",
 ]
 TRUSTED = ["hand-written rational models Model/Resample.lean of np.interp / linspace / arange, the two branch resamplers, the moving-average smoother and the "
            "branch re-assembly rule (tied by the c16.branch correspondence; values compared with tolerance 1e-5 because the code computes in float32/64)"]
 ASSUMPTIONS = ["segment lengths enter the model as exact numbers (generated polylines are axis-aligned lattice paths); square roots and float rounding are outside",
-               "scipy.signal.convolve(mode='same') window alignment as modelled; greedy branch/end-point pairing of the assembler observed through the oracle only"]
+               "scipy.signal.convolve(mode='same') window alignment as modelled; the assembler's greedy pairing is modelled on squared distances (Model/Mst.lean pairGreedy, tied by c16.pair) and proved to be "
+               "the true matching when every branch ends at exactly one child; sister branches ending at the same point are oracle-only"]
 
 
 def polyline(rng, npts, zero_ok=True):
@@ -351,7 +353,69 @@ class TreeSuite(Suite):
         return case["tree"]["n"] >= 3
 
 
-SUITES = [BranchSuite(), TreeSuite()]
+class PairSuite(Suite):
+    """`BranchTreeAssembler.pair`: the greedy matching of resampled branches with the children they end at"""
+    name = "c16.pair"
+
+    def cases(self, rng, tier, widen):
+        out = []
+        big = tier == "thorough" or widen
+        for m in [1, 2, 3, 4, 6] + ([9, 14] if big else []):
+            for rep in range(4 if not big else 10):
+                pts = set()
+                while len(pts) < 2 * m:
+                    pts.add(tuple(rng.randint(-9, 9) for _ in range(3)))
+                pts = list(pts); rng.shuffle(pts)
+                kids = pts[:m]
+                if rep % 2 == 0:      # every branch ends exactly at its own child, in scrambled order
+                    sigma = list(range(m)); rng.shuffle(sigma)
+                    ends = [kids[sigma[b]] for b in range(m)]
+                    cls = "exact"
+                else:                 # arbitrary end points (whatever the resampler produced): the greedy rule as such
+                    ends = pts[m:]; sigma = None
+                    cls = "general"
+                out.append({"class": f"{cls}/m{m}", "ends": [list(p) for p in ends], "kids": [list(p) for p in kids], "sigma": sigma})
+        return out
+
+    def run(self, case):
+        from swcgeom.core import Branch, Tree
+        from swcgeom.transforms.branch_tree import BranchTreeAssembler
+
+        m = len(case["ends"])
+        xyz = np.array([[0.5, 0.25, 0.125]] + case["ends"] + case["kids"], dtype=np.float32)
+        n = 2 * m + 1
+        t = Tree(n, id=np.arange(n, dtype=np.int32), pid=np.array([-1] + [0] * (2 * m), dtype=np.int32), type=np.array([1] + [3] * (2 * m), dtype=np.int32),
+                 x=xyz[:, 0].copy(), y=xyz[:, 1].copy(), z=xyz[:, 2].copy(), r=np.ones(n, dtype=np.float32))
+        branches = [Branch(t, np.array([0, 1 + b], dtype=np.int32)) for b in range(m)]
+        endpoints = [t.node(1 + m + e) for e in range(m)]
+        pairs = BranchTreeAssembler().pair(branches, endpoints)
+        return {"pairs": [[int(br.get_ndata("id")[-1]) - 1, int(nd.id) - 1 - m] for br, nd in pairs]}
+
+    def lines(self, case, res):
+        if "exc" in res:
+            return []
+        d2 = [[sum((a - b) ** 2 for a, b in zip(e, k)) for k in case["kids"]] for e in case["ends"]]
+        flat = sorted(v for row in d2 for v in row)
+        return [("pair d=" + ";".join(",".join(str(v) for v in row) for row in d2), ",".join(f"{b}:{e}" for b, e in res["pairs"]))]
+
+    def oracle(self, case, res):
+        if "exc" in res:
+            return [("pair-raises", f"{res['exc']}: {res.get('msg')}")]
+        m = len(case["ends"])
+        out = []
+        if sorted(b for b, _ in res["pairs"]) != list(range(m)) or sorted(e for _, e in res["pairs"]) != list(range(m)):
+            out.append(("pair-not-a-matching", f"pairs {res['pairs']} do not use every branch and every child exactly once"))
+        elif case["sigma"] is not None:
+            bad = [(b, e) for b, e in res["pairs"] if case["sigma"][b] != e]
+            if bad:
+                out.append(("pair-wrong-child", f"branch {bad[0][0]} ends exactly at child {case['sigma'][bad[0][0]]} but was paired with child {bad[0][1]}"))
+        return out
+
+    def nontrivial(self, case, res):
+        return len(case["ends"]) >= 2
+
+
+SUITES = [BranchSuite(), TreeSuite(), PairSuite()]
 TECHNIQUE = ("Lean 4 theorems over ℚ about the models of np.interp / linspace (end points, equal steps no longer than the spacing, every sample a convex combination "
              "of two consecutive originals, radii by the same interpolation; over ℝ with the Euclidean norm: the polyline through the samples of both resamplers is no longer than the original, for any sorted abscissae), of the smoother (end points, count) and of the re-assembly rule (no interior sample "
              "lost) + differential correspondence with tolerance + an oracle that walks the original polyline by arc length")
